@@ -98,7 +98,11 @@ def task(job):
     signal.signal(signal.SIGALRM, progs._alarm)
     signal.alarm(40)
     try:
-        qf = qlassf(src, to_compile=True)
+        if job.get("fast"):
+            from qlasskit.boolopt import fastOptimizer
+            qf = qlassf(src, to_compile=True, bool_optimizer=fastOptimizer)
+        else:
+            qf = qlassf(src, to_compile=True)
         if type(qf).__name__ == "UnboundQlassf":
             return dict(status="unbound")
         arg_t = [a.ttype for a in qf.args]
@@ -234,7 +238,12 @@ def run(tier, seed):
              ("return-name", "def test(a: Tuple[Qint[2], bool]) -> Tuple[Qint[2], bool]:\n    return a"),
              ("return-name", "def test(a: Tuple[bool, bool]) -> Tuple[bool, bool]:\n    return a")]
     nvals = 24 if tier == "quick" else 128
-    jobs = [dict(src=s, seed=seed * 100003 + i, nvals=nvals) for i, (_, s) in enumerate(srcs)]
+    rebind = [("rebind-fast", "def test(a: bool, b: bool) -> bool:\n    a = a and b\n    return a"),
+              ("rebind-fast", "def test(a: Qint[2], b: Qint[2]) -> Qint[2]:\n    a = a + b\n    return a"),
+              ("rebind-fast", "def test(a: bool, b: bool) -> Tuple[bool, bool]:\n    b = not b\n    a = a ^ b\n    return (a, b)"),
+              ("rebind-fast", "def test(a: Qint[2], b: bool) -> Qint[2]:\n    for i in range(2):\n        a = a + 1\n    b = a > 1\n    return a if b else a + 1")]
+    srcs += rebind
+    jobs = [dict(src=s, seed=seed * 100003 + i, nvals=nvals, fast=(o == "rebind-fast")) for i, (o, s) in enumerate(srcs)]
     res = progs.run_pool(task, jobs)
     known = C.known_findings(PID)
     kf = [f for f in known if f.get("id") == "return-tuple-name"]
